@@ -37,8 +37,8 @@ Definition check_case (c : case) : list (nat * nat) :=
   let '(r, t') := mstep (c_pre c) (c_op c) in
   (if negb (c_panic c) && res_eqb r (c_res c) && tbl_eqb t' (c_post c) then [] else [(2%nat, 0%nat)]) ++
   (if c_panic c then [(3%nat, 3%nat)]
-   else if C03_ok (c_pre c) (c_res c) (c_post c) then []
-   else [(3%nat, (C03_diag (c_pre c) (c_res c) (c_post c)
+   else if C03_ok (c_pre c) (c_op c) (c_res c) (c_post c) then []
+   else [(3%nat, (C03_diag (c_pre c) (c_op c) (c_res c) (c_post c)
                   + (if sig_update_half_done (c_pre c) (c_op c) (c_res c) (c_post c) then 100 else 0))%nat)]).
 
 Fixpoint check_all (i : nat) (cs : list case) : list (nat * (nat * nat)) :=
